@@ -211,6 +211,11 @@ impl<K: HKey> Session<K> {
                 Err(e) => format!("err {}", classify(&e)),
             },
             ["close"] => { self.close(); "ok".into() }
+            // make the next snapshot write fail without side effect (a directory where index.tmp goes) / undo
+            ["blockindextmp"] => { match std::fs::create_dir(self.dir.join("index.tmp")) { Ok(_) => "ok".into(), Err(e) => format!("err {e}") } }
+            ["unblockindextmp"] => { match std::fs::remove_dir(self.dir.join("index.tmp")) { Ok(_) => "ok".into(), Err(e) => format!("err {e}") } }
+            // `Cas` is a cheap clone of one shared handle: dropping a clone must not release anything
+            ["clonedrop"] => { let c = cas!().clone(); drop(c); "ok".into() }
             // drop the handle but keep the OrphanStats (which owns an Arc of the inner handle)
             ["close_keep_stats"] => { self.txs.clear(); self.cas = None; "ok".into() }
             // n threads race to open the directory; exactly one must win
